@@ -3727,7 +3727,12 @@ fn parse_layers(
                     let input = &pair[0];
                     let action = &pair[1];
 
+                    let actions_before = s.action_count.get();
                     let action = parse_action(action, s)?;
+                    let actions_of_this = s.action_count.get().saturating_sub(actions_before);
+                    // An any-key entry puts its action into many positions. The passes after
+                    // parsing walk every position, so the action counts once per position.
+                    let mut positions_filled: u64 = 0;
                     if input.atom(s.vars()).is_some_and(|x| x == "_") {
                         if defsrc_anykey_used {
                             bail_expr!(input, "must have only one use of _ within a layer")
@@ -3738,6 +3743,7 @@ fn parse_layers(
                         for i in 0..s.mapping_order.len() {
                             if layers_cfg[layer_level][0][s.mapping_order[i]] == DEFAULT_ACTION {
                                 layers_cfg[layer_level][0][s.mapping_order[i]] = *action;
+                                positions_filled += 1;
                             }
                         }
                         defsrc_anykey_used = true;
@@ -3759,6 +3765,7 @@ fn parse_layers(
                                 && !s.mapping_order.contains(&i)
                             {
                                 layers_cfg[layer_level][0][i] = *action;
+                                positions_filled += 1;
                             }
                         }
                         unmapped_anykey_used = true;
@@ -3781,6 +3788,7 @@ fn parse_layers(
                         for i in 0..layers_cfg[0][0].len() {
                             if layers_cfg[layer_level][0][i] == DEFAULT_ACTION {
                                 layers_cfg[layer_level][0][i] = *action;
+                                positions_filled += 1;
                             }
                         }
                         both_anykey_used = true;
@@ -3795,6 +3803,11 @@ fn parse_layers(
                         }
                         layers_cfg[layer_level][0][usize::from(input_key)] = *action;
                     }
+                    count_actions(
+                        input,
+                        s,
+                        actions_of_this.saturating_mul(positions_filled.saturating_sub(1)),
+                    )?;
                 }
                 let rem = pairs.remainder();
                 if !rem.is_empty() {
